@@ -36,27 +36,24 @@ Theorem C04_sort_sound :
 Proof. exact C04_sort_sound_proof. Qed.
 Print Assumptions C04_sort_sound.
 
-(* ---- merging of neighbouring rules: the full statement is FALSE of the code as modelled ---- *)
+(* ---- merging of neighbouring rules ----
+   Since /repo ec2de34 only positive neighbours merge, so no hypothesis about negation is needed any more.
+   What remains FALSE of the code as modelled is the unrestricted statement, because outbounds are compared by
+   a printed form that stops after five parameters (open finding C04/outbound-print-truncated). *)
 Definition C04_merge_sound_full : Prop :=
   forall (packet D : Type) (atom_sem : string -> string -> string -> packet -> bool) (out_sem : func -> option D)
          (rules : list rule) (pk : packet),
     decide packet D atom_sem out_sem (merge_sort_opt rules) pk = decide packet D atom_sem out_sem rules pk.
 
-(* witness: !domain(full: a.com) -> proxy ; !domain(full: b.com) -> proxy ; name a.com *)
-Theorem C04_merge_sound_refuted :
-  exists (rules : list rule) (pk : string),
-    decide string string w_atom w_out (merge_sort_opt rules) pk <> decide string string w_atom w_out rules pk.
-Proof. exact C04_merge_sound_refuted_proof. Qed.
-Print Assumptions C04_merge_sound_refuted.
-
-(* second witness: outbounds that differ only after their fifth parameter are taken for equal *)
+(* witness: outbounds that differ only after their fifth parameter are taken for equal *)
 Theorem C04_merge_outbound_refuted :
   exists (rules : list rule) (pk : string),
     decide string string w_atom w_out_last (merge_sort_opt rules) pk <> decide string string w_atom w_out_last rules pk.
 Proof. exact C04_merge_outbound_refuted_proof. Qed.
 Print Assumptions C04_merge_outbound_refuted.
 
-(* what does hold: no two neighbours that merge are negated, and merged outbounds mean the same *)
+(* for ALL rule lists, negated or not: merging + sorting keeps every decision, provided the outbounds of
+   neighbours that are fused mean the same (the only hypothesis) *)
 Theorem C04_merge_sound_partial :
   forall (packet D : Type) (atom_sem : string -> string -> string -> packet -> bool) (out_sem : func -> option D)
          (rules : list rule),
@@ -65,6 +62,23 @@ Theorem C04_merge_sound_partial :
       decide packet D atom_sem out_sem (merge_sort_opt rules) pk = decide packet D atom_sem out_sem rules pk.
 Proof. exact C04_merge_sound_partial_proof. Qed.
 Print Assumptions C04_merge_sound_partial.
+
+(* ... in particular when outbounds are told apart by their printed form (true of every outbound with at
+   most five parameters that routing.ParseOutbound accepts) there is no hypothesis on the rules at all *)
+Theorem C04_merge_sound :
+  forall (packet D : Type) (atom_sem : string -> string -> string -> packet -> bool) (out_sem : func -> option D),
+    (forall o1 o2 : func, out_print o1 = out_print o2 -> out_sem o1 = out_sem o2) ->
+    forall (rules : list rule) (pk : packet),
+      decide packet D atom_sem out_sem (merge_sort_opt rules) pk = decide packet D atom_sem out_sem rules pk.
+Proof. exact C04_merge_sound_proof. Qed.
+Print Assumptions C04_merge_sound.
+
+(* regression of the repaired defect: !domain(full: a.com) -> proxy ; !domain(full: b.com) -> proxy stay two rules *)
+Example C04_negated_neighbours_kept :
+  merge_sort_opt w_neg_rules = w_neg_rules /\
+  decide string string w_atom w_out (merge_sort_opt w_neg_rules) "a.com" = (Some "proxy", false) /\
+  decide string string w_atom w_out w_neg_rules "a.com" = (Some "proxy", false).
+Proof. exact negated_neighbours_kept. Qed.
 
 (* ---- removal of duplicate values: duplicates are recognised by their printed form ---- *)
 Definition C04_dedup_sound_full : Prop :=
@@ -96,12 +110,12 @@ Definition C04_pipeline_sound_full : Prop :=
     (traffic_pipeline db rules = XOk out -> decide packet D atom_sem out_sem out pk = decide packet D atom_sem out_sem rules pk)
     /\ (dns_pipeline db rules = XOk out -> decide packet D atom_sem out_sem out pk = decide packet D atom_sem out_sem rules pk).
 
-(* witness: the same two negated neighbours, through either pipeline, with no geodata and no aliases *)
+(* witness: the two rules with six-parameter outbounds, through either pipeline, no geodata, no aliases *)
 Theorem C04_pipeline_sound_refuted :
   exists (rules out : list rule) (pk : string),
     alias_respecting string w_atom /\ geo_respecting string w_atom (dat_expansion db0) /\
     traffic_pipeline db0 rules = XOk out /\ dns_pipeline db0 rules = XOk out /\
-    decide string string w_atom w_out out pk <> decide string string w_atom w_out rules pk.
+    decide string string w_atom w_out_last out pk <> decide string string w_atom w_out_last rules pk.
 Proof. exact C04_pipeline_sound_refuted_proof. Qed.
 Print Assumptions C04_pipeline_sound_refuted.
 
